@@ -61,7 +61,7 @@ func execForced(c *core.Case, fc *forcedCase) {
 		judge(c, mc, d, log)
 	}
 	joinNormally := func() bool {
-		return do(step{Op: "join", Label: "j"}) && do(step{Op: "seen", N: 1}) && do(step{Op: "self"}) && do(step{Op: "await", Label: "j", Must: true})
+		return do(step{Op: "join", Label: "j"}) && do(step{Op: "seen", Label: "j"}) && do(step{Op: "self"}) && do(step{Op: "await", Label: "j", Must: true})
 	}
 
 	switch fc.Scenario {
@@ -78,7 +78,7 @@ func execForced(c *core.Case, fc *forcedCase) {
 			break
 		}
 		c.Count("forced_M1_reached", 1)
-		if !do(step{Op: "seen", N: 2}) || !do(step{Op: "unavail"}) || !do(step{Op: "barrier"}) {
+		if !do(step{Op: "seen", Label: "l"}) || !do(step{Op: "unavail"}) || !do(step{Op: "barrier"}) {
 			break
 		}
 		rule.Release()
@@ -93,7 +93,7 @@ func execForced(c *core.Case, fc *forcedCase) {
 			break
 		}
 		c.Count("forced_M2_reached", 1)
-		if !do(step{Op: "seen", N: 1}) || !do(step{Op: "self"}) {
+		if !do(step{Op: "seen", Label: "j"}) || !do(step{Op: "self"}) {
 			break
 		}
 		time.Sleep(2 * time.Millisecond) // let the handler reach the hand-off
@@ -108,7 +108,7 @@ func execForced(c *core.Case, fc *forcedCase) {
 		}
 		rule := ctl.Park("muc.depart.notify", addr)
 		do(step{Op: "leave", Label: "l"})
-		if !do(step{Op: "seen", N: 2}) {
+		if !do(step{Op: "seen", Label: "l"}) {
 			break
 		}
 		do(step{Op: "unavail"})
